@@ -2,6 +2,7 @@ import HeimdallModel.Lemmas.UrlEscape
 import HeimdallModel.Lemmas.UpstreamUrl
 import HeimdallModel.Model.Repo
 import HeimdallModel.Lemmas.Trie
+import HeimdallModel.Lemmas.SlashSetting
 /-!
 # C08 — percent-encoding cannot change the matched rule; encoded slashes obey the rule
 
@@ -677,5 +678,222 @@ theorem c08_request_contexts_agree (received : String) (v : String × String) (h
 example : pathUnescapeL ['/', '%', '2', '5', '4', '1'] = some ['/', '%', '4', '1'] ∧
     pathUnescapeL ['/', '%', 'z', 'z'] = none := by decide
 
+/-! ## The setting that governs a route is the setting of its rule, whatever was loaded before
+
+`allow_encoded_slashes` reaches the matching code twice: baked into the `path_params` matcher of every route when the
+rule factory creates the rule (`RVal.route.esh`), and as `ruleImpl.slashesHandling` (`RVal.esh`).  The statements
+below are for **every history** of creations, updates and deletions of rule sets (rejected ones included) in which the
+rules are as the factory creates them (`CoherentHistory`: both copies are the setting of the rule) — in particular
+for histories in which several rules carry the very same `path_params` definition under different settings, and in
+which a rule set comes back with nothing but the setting of a rule changed. -/
+
+/-- **Every entry of the routing tree carries the setting of its own rule**, after any history. -/
+theorem c08_index_carries_rule_setting (ops : List RepoOp) (hc : CoherentHistory ops) :
+    ∀ n ∈ (Repo.run ops).index, ∀ v ∈ n.values, v.route.esh = v.esh :=
+  allVals_run ops hc
+
+/-- for an entry whose matcher carries the setting of its rule, the conditions as implemented are the conditions
+judged under the setting of the rule -/
+theorem c08_matcher_is_spec_under_rule_setting (q : ReqView) (v : RVal) (hv : v.coherent) (keys caps : List String) :
+    repoMatcher q v keys caps = entrySpec q v keys caps := by
+  unfold repoMatcher routeMatches entrySpec
+  have hv' : v.route.esh = v.esh := hv
+  rw [hv']
+  congr 1
+  exact List.all_congr rfl fun pp => ppOk_eq_ppSpec v.esh q keys caps pp
+
+/-- **The lookup follows the setting of the rule, for every history**: `FindRule` answers as the lookup in which every
+`path_params` condition is judged under the setting its rule is currently loaded with — which rule answers a request
+with an encoded slash does not depend on what other rules (or earlier versions of the rule) with the same
+`path_params` definition were loaded with. -/
+theorem c08_lookup_follows_rule_setting (ops : List RepoOp) (hc : CoherentHistory ops) (hasDefault : Bool)
+    (q : ReqView) : (Repo.run ops).findRule hasDefault q = (Repo.run ops).findRuleSpec hasDefault q := by
+  unfold Repo.findRule Repo.findRuleSpec
+  rw [lookup_matcher_congr (repoMatcher q) (entrySpec q) _ _
+    (fun n hn v hv keys caps => c08_matcher_is_spec_under_rule_setting q v (allVals_run ops hc n hn v hv) keys caps)]
+  rfl
+
+/-- **`on` / `no_decode`: an encoded slash alone is never a reason for a route not to answer** — the condition holds
+exactly when the parameter was captured and the expression accepts the value the pipeline is shown (`%2F` decoded to
+`/` under `on`, kept as written under `no_decode`). -/
+theorem c08_encoded_slash_alone_never_refuses (esh : SlashHandling) (hne : esh ≠ .off) (q : ReqView)
+    (keys caps : List String) (pp : String × TM) :
+    ppSpec esh q keys caps pp =
+      match lookupKey keys caps pp.1 with
+      | none => false
+      | some raw => pp.2.matches (exposedValue esh q raw) := by
+  unfold ppSpec
+  cases lookupKey keys caps pp.1 with
+  | none => rfl
+  | some raw => cases esh <;> simp at hne ⊢
+
+/-- what a condition is applied to is what `ruleImpl.Execute` puts into the captured values (`execPrelude`), for a
+request with a raw path -/
+theorem c08_condition_sees_exposed_capture (esh : SlashHandling) (q : ReqView) (raw : String)
+    (h : q.rawPath.isEmpty = false) : exposedValue esh q raw = unescapeCapture esh raw := by
+  simp [exposedValue, h]
+
+/-- **`off`: a route with `path_params` is not for a request with an encoded slash** (and a route without them answers
+with the precondition error, `c08_off_never_accepts`). -/
+theorem c08_off_path_params_refuse_encoded_slash (q : ReqView) (keys caps : List String) (pp : String × TM)
+    (hraw : q.rawPath.isEmpty = false) (hs : containsEncodedSlash q.rawPath = true) :
+    ppSpec .off q keys caps pp = false := by
+  unfold ppSpec
+  cases lookupKey keys caps pp.1 with
+  | none => rfl
+  | some raw => simp [hraw, hs]
+
+/-- non-vacuity: a history in which two rules carry the same `path_params` definition (`x`: glob `a*`) under different
+settings, and the rule set is then re-loaded with only the setting of the first rule changed -/
+def sharedDef : String × TM := ("x", .glob [.lit 'a', .star] '/')
+def ruleWith (id : String) (e : String) (esh : SlashHandling) (ver : Nat) : RuleCfg :=
+  { id, bt := false, esh, routes := [(e, { scheme := "", methods := [], hosts := [], pps := [sharedDef], esh })], ver }
+
+example : CoherentHistory
+    [.add "s1" [ruleWith "A" "/f/:x" .off 1, ruleWith "B" "/g/:x" .on 2],
+     .upd "s1" [ruleWith "A" "/f/:x" .on 3, ruleWith "B" "/g/:x" .on 2]] := by
+  intro op hop c hcm rt hrt
+  simp only [List.mem_cons, List.not_mem_nil, or_false] at hop
+  rcases hop with rfl | rfl <;>
+    (simp only [RepoOp.rules, List.mem_cons, List.not_mem_nil, or_false] at hcm
+     rcases hcm with rfl | rfl <;>
+       (simp only [ruleWith, List.mem_cons, List.not_mem_nil, or_false] at hrt
+        subst hrt
+        rfl))
+
+/-- … and what an entry whose matcher was compiled for ANOTHER setting than its rule's would do (the entry the
+hypothesis `CoherentHistory` excludes): the rule says `on`, its matcher refuses the encoded slash. -/
+example :
+    let v : RVal := ⟨"B", "s1", .on, { scheme := "", methods := [], hosts := [], pps := [sharedDef], esh := .off }, 2⟩
+    let q : ReqView := { method := "GET", scheme := "http", host := "h", rawPath := "/g/a%2Fb", path := "/g/a/b" }
+    repoMatcher q v ["x"] ["a%2Fb"] = false ∧ ¬ v.coherent := by
+  refine ⟨by decide, ?_⟩
+  show ¬ (SlashHandling.off = SlashHandling.on)
+  decide
+
+/-! ## What the proxy writes into the request line of the request it sends upstream
+
+`Repo.sent` is the request target the proxy service (`requestContext.Finalize`, `rewriteRequest`) writes to the
+upstream connection: `RequestURI()` of the URL the rule returned, nothing of the URL of the received request.  Its
+path part (`targetPath`: everything before the first `?`) is the path of that URL — so every statement about
+`upstreamPath` above is a statement about the octets the upstream service receives. -/
+
+/-- The path the rule computes never contains a `?` (`upstreamPath_no_qmark`), **so the path part of the request line
+the proxy writes is exactly the path the rule computed** (`/` standing for the empty path), whatever the query is. -/
+theorem c08_sent_path_is_upstream_path (esh : SlashHandling) (be : BackendCfg) (q : ReqView) (rq : String) :
+    targetPath (requestTarget (upstreamUrl esh be q rq)) =
+      if (upstreamPath esh be.rewrite q).isEmpty then ['/'] else upstreamPath esh be.rewrite q := by
+  have hnq := upstreamPath_no_qmark esh be.rewrite q
+  unfold targetPath requestTarget
+  have hp : (upstreamUrl esh be q rq).path = String.ofList (upstreamPath esh be.rewrite q) := rfl
+  rw [hp, ofList_isEmpty]
+  generalize (upstreamUrl esh be q rq).query = query
+  cases hpe : (upstreamPath esh be.rewrite q).isEmpty with
+  | true =>
+    simp only [if_true]
+    cases hq : query.isEmpty with
+    | true => simp only [if_true]; decide
+    | false =>
+      simp only [Bool.false_eq_true, if_false, String.toList_append]
+      exact takeWhile_no_qmark ['/'] query.toList (by decide)
+  | false =>
+    simp only [Bool.false_eq_true, if_false]
+    cases hq : query.isEmpty with
+    | true =>
+      simp only [if_true, String.toList_append, String.toList_ofList]
+      simpa using takeWhile_no_qmark_all _ hnq
+    | false =>
+      simp only [Bool.false_eq_true, if_false, String.toList_append, String.toList_ofList]
+      exact takeWhile_no_qmark _ query.toList hnq
+
+/-- **`on`: an encoded slash of the request arrives at the upstream as the path separator `/`** — the request line
+written for `pre ++ %2F|%2f ++ post` has the path `add ++ escape(dec pre) ++ "/" ++ escape(dec post)`. -/
+theorem c08_sent_on_slash_decoded (q : ReqView) (host : String) (r : RewriteCfg) (pre post : List PU) (x : Char)
+    (ad : List Char) (rq : String)
+    (hx : x = 'F' ∨ x = 'f') (hpre : ∀ u ∈ pre, u.wf) (hpost : ∀ u ∈ post, u.wf)
+    (hbpre : ∀ u ∈ pre, u.byte) (hbpost : ∀ u ∈ post, u.byte) (hbad : ∀ c ∈ ad, c.toNat < 256)
+    (hadd : r.add.toList = escapePathL ad) (hstrip : r.strip = "") :
+    targetPath (requestTarget (upstreamUrl .on ⟨host, some r⟩ (respell q (renderU (pre ++ .esc '2' x :: post))) rq)) =
+      escapePathL ad ++ escapePathL (pre.map PU.dec) ++ '/' :: escapePathL (post.map PU.dec) := by
+  rw [c08_sent_path_is_upstream_path]
+  simp only [c08_upstream_on_slash_decoded q r pre post x ad hx hpre hpost hbpre hbpost hbad hadd hstrip]
+  simp
+
+/-- **`on`: the request line written to the upstream has no encoded slash in its path** (prefixes in their default
+encoding, as in `c08_upstream_on_canonical`). -/
+theorem c08_sent_on_no_encoded_slash (q : ReqView) (host : String) (r : RewriteCfg) (us : List PU) (ad wd : List Char)
+    (rq : String) (hwf : ∀ u ∈ us, u.wf) (hstar : us.map PU.dec ≠ ['*']) (hb : ∀ c ∈ ad ++ wd, c.toNat < 256)
+    (hadd : r.add.toList = escapePathL ad)
+    (hcut : cutPrefixL r.strip.toList (escapePathL (us.map PU.dec)) = escapePathL wd) :
+    containsEncodedSlashL
+      (targetPath (requestTarget (upstreamUrl .on ⟨host, some r⟩ (respell q (renderU us)) rq))) = false := by
+  rw [c08_sent_path_is_upstream_path]
+  simp only [c08_upstream_on_canonical q r us ad wd hwf hstar hb hadd hcut]
+  split
+  · decide
+  · rw [← escapePathL_append]
+    exact escapePathL_no_encoded_slash _ hb
+
+/-- **`no_decode`: an encoded slash of the request arrives at the upstream as the client wrote it**, same hex case,
+same position. -/
+theorem c08_sent_no_decode_slash_stays_encoded (q : ReqView) (host : String) (r : RewriteCfg)
+    (ps pre post as : List PU) (x : Char) (rq : String) (hx : x = 'F' ∨ x = 'f')
+    (hps : ∀ u ∈ ps, u.sendable) (hpre : ∀ u ∈ pre, u.sendable) (hpost : ∀ u ∈ post, u.sendable)
+    (has : ∀ u ∈ as, u.sendable) (hadd : r.add.toList = renderU as) (hstrip : r.strip.toList = renderU ps) :
+    targetPath (requestTarget
+        (upstreamUrl .noDecode ⟨host, some r⟩ (respell q (renderU (ps ++ (pre ++ .esc '2' x :: post)))) rq)) =
+      renderU as ++ renderU pre ++ '%' :: '2' :: x :: renderU post := by
+  rw [c08_sent_path_is_upstream_path]
+  simp only [c08_upstream_no_decode_slash_stays_encoded q r ps pre post as x hx hps hpre hpost has hadd hstrip]
+  simp
+
+/-- **`on`: the request line written to the upstream does not depend on the spelling of the request.** -/
+theorem c08_sent_on_spelling_invariant (s : Repo) (hasDefault : Bool) (q : ReqView) (us us' : List PU) (rq : String)
+    (hwf : ∀ u ∈ us, u.wf) (h : Reenc us us') (v : RVal) (ps : List (String × String))
+    (hf : s.findRule hasDefault (respell q (renderU us)) = .rule v ps) (hv : v.esh = .on) :
+    s.sent hasDefault (respell q (renderU us')) rq = s.sent hasDefault (respell q (renderU us)) rq := by
+  unfold Repo.sent Repo.upstream
+  rw [c08_same_entry_for_every_spelling s hasDefault q us us' hwf h, hf]
+  simp only [hv, execPrelude]
+  have hoff : (SlashHandling.on = SlashHandling.off) = False := by simp
+  simp only [hoff, decide_false, Bool.false_and, Bool.false_eq_true, if_false]
+  cases (s.ruleOf v).bind (·.cfg.backend) with
+  | none => rfl
+  | some be => simp only [c08_upstream_on_spelling_invariant be q us us' rq hwf h]
+
+/-- **`off`: for a request with an encoded slash nothing is written to any upstream**; … -/
+theorem c08_off_nothing_sent (s : Repo) (d : Bool) (q : ReqView) (rq : String)
+    (h : containsEncodedSlash q.rawPath = true) (v : RVal) (ps : List (String × String))
+    (hf : s.findRule d q = .rule v ps) (hv : v.esh = .off) : s.sent d q rq = none := by
+  unfold Repo.sent
+  rw [c08_upstream_off_never_forwarded s d q rq h v ps hf hv]
+  rfl
+
+/-- … the default rule never writes anything; … -/
+theorem c08_default_rule_nothing_sent (s : Repo) (q : ReqView) (rq : String) (hf : s.findRule true q = .default) :
+    s.sent true q rq = none := by
+  unfold Repo.sent
+  rw [c08_upstream_default_rule_never_forwards s q rq hf]
+  rfl
+
+/-- … and whatever is written belongs to a request that was not answered with the precondition error, and is the
+request target of the URL the matched rule computed. -/
+theorem c08_sent_only_what_the_rule_computed (s : Repo) (d : Bool) (q : ReqView) (rq : String) (t : String)
+    (h : s.sent d q rq = some t) :
+    ∃ u, s.upstream d q rq = some u ∧ t = requestTarget u ∧ ∃ caps, (s.serve d q).exec = some (.ok caps) := by
+  unfold Repo.sent at h
+  cases hu : s.upstream d q rq with
+  | none => simp [hu] at h
+  | some u =>
+    simp only [hu, Option.bind_some] at h
+    split at h
+    · exact ⟨u, rfl, (Option.some.inj h).symm, c08_upstream_only_if_accepted s d q rq u hu⟩
+    · cases h
+
+/-- non-vacuity: the request lines written for `/files/a/b` with and without a query, and for the empty path -/
+example : requestTarget ⟨"http", "up:8080", "/files/a/b", ""⟩ = "/files/a/b" ∧
+    requestTarget ⟨"http", "up:8080", "/files/a/b", "x=1"⟩ = "/files/a/b?x=1" ∧
+    requestTarget ⟨"https", "up", "", ""⟩ = "/" ∧
+    targetPath "/files/a%2Fb?x=%2F" = "/files/a%2Fb".toList ∧ transportSpeaks "ws" = false := by decide
 
 end Heimdall.Props.C08
